@@ -100,6 +100,10 @@ class C10(Prop):
             n = rng.choice(cloned)
             kind = rng.choice(["commit", "commit", "push", "push", "fetch", "pull", "pull_rebase"])
             env = None
+            if rng.random() < 0.12:
+                # repository maintenance in one clone (or on the server): refs get packed, objects repacked
+                yield {"op": "sync", "kind": "pack", "clone": rng.choice(cloned + ["remote"]), "dt": 3000,
+                       "argv": rng.choice([["pack-refs", "--all"], ["gc", "-q"], ["pack-refs", "--all"]])}
             if step == fault_at:
                 fk = rng.choice(["net_down", "net_down", "kill", "kill", "step_fail", "step_fail", "step_kill"])
                 if fk == "net_down":
@@ -198,6 +202,11 @@ class C10(Prop):
             return self.foreign_note(ex, op["clone"])
         if kind == "concurrent":
             return self.concurrent(ex, op)
+        if kind == "pack":
+            repo = ex.repos[op["clone"]]
+            r = w.raw_git(repo, *op["argv"]) if op["clone"] == "remote" else w.git(repo, *op["argv"])
+            ex.probe("step.pack")
+            return {"code": r.code, "err": r.err}
         if kind == "plain_push":
             repo = ex.repos[op["clone"]]
             branch = w.raw_git(repo, "rev-parse", "--abbrev-ref", "HEAD").out.strip()
@@ -445,7 +454,7 @@ class C10(Prop):
         for o in ops:
             if o["op"] == "clone":
                 names.add(o["name"])
-            elif o.get("clone") and o["clone"] not in names:
+            elif o.get("clone") and o["clone"] not in names and o["clone"] != "remote":
                 return False
             elif any(p["clone"] not in names for p in o.get("parts") or []):
                 return False
